@@ -3,7 +3,7 @@
 //! through the guarded `TimeTrigger::verif_next_time`) + arrival sequences through the public
 //! appender path under the driven clock.
 
-use crate::engine::{catch_panic, hooks, panic_site, proc::run_child, sandbox::Sandbox, Ctx, Report, Tier};
+use crate::engine::{catch_panic, hooks, proc::run_child, sandbox::Sandbox, Ctx, Report, Tier};
 use chrono::{DateTime, Datelike, Duration, Local, NaiveDate, NaiveDateTime, Offset, TimeZone, Timelike};
 use log::{Level, Record};
 use log4rs::append::{
